@@ -59,7 +59,8 @@ ASSUMPTIONS = [
 REQUIRED = ["tables_exhaustive", "tables_random", "is_single_root_checked", "has_cyclic_checked",
             "is_sorted_checked", "is_bifurcate_checked", "cyclic_tables", "forest_tables",
             "dsu_histories", "dsu_pair_queries", "dsu_invariant_evaluations", "dsu_histories_interleaved",
-            "dsu_library_use_between_queries", "older_checker_names", "tree_level_checker", "repair_off",
+            "dsu_library_use_between_queries", "older_checker_names", "tree_level_checker",
+            "tables_with_ids_beyond_32_bits", "tables_under_custom_column_names", "repair_off",
             "repair_somas", "repair_nearest", "repair_table_functions", "repair_three_or_more_roots",
             "step_budget_calls", "frames_with_other_index", "rejected_calls_before_has_cyclic",
             "tables_regular_families", "checkers_on_int32_arrays",
@@ -207,6 +208,28 @@ def check_table(ctx, case):
     call("is_bifurcate(exclude_root=True)",
          lambda: su.is_bifurcate((ids, pids), exclude_root=True),
          all(v <= 2 for k, v in cnt.items() if k not in roots))
+    if positional:
+        # the same table with every id shifted beyond 32 bits (database keys as ids): parents
+        # precede children exactly as before
+        K = [2**31 - 3, 2**31, 2**32 + 5][int(ids.sum() + n) % 3]
+        big_i, big_p = ids + K, np.where(pids >= 0, pids + K, -1)
+        call("is_sorted", lambda: su.is_sorted((big_i, big_p)), bool(np.all(pids < ids)))
+        ctx.count("tables_with_ids_beyond_32_bits")
+    # the same table under custom column names (`names=`), next to default-named columns that
+    # describe something else (raw and proofread parents side by side)
+    from swcgeom.core.swc_utils import SWCNames
+
+    nm_ = SWCNames(id="node", pid="parent")
+    dfc = df.rename(columns={"id": "node", "pid": "parent"})
+    dfc["id"], dfc["pid"] = ids, np.full(n, -1, dtype=np.int64)   # decoy: every node a root
+    call("is_single_root", lambda: su.is_single_root(dfc, names=nm_), conn)
+    import warnings as _w0
+
+    with _w0.catch_warnings():
+        _w0.simplefilter("ignore")
+        call("is_bifurcate(exclude_root=False)", lambda: su.is_binary_tree(dfc, False, names=nm_),
+             all(v <= 2 for v in cnt.values()))
+    ctx.count("tables_under_custom_column_names")
     # the same questions through the older names the library still exports (table form), and
     # through the tree-level front end for tables that are trees
     import warnings as _w
